@@ -2,9 +2,12 @@ package main
 
 import (
 	"fmt"
+	"net"
+	"strings"
 	"time"
 
 	"github.com/enbility/ship-go/zzverif/fakews"
+	"github.com/enbility/ship-go/zzverif/fakezeroconf"
 	"github.com/enbility/ship-go/zzverif/hubx"
 	"github.com/enbility/ship-go/zzverif/hx"
 	"github.com/enbility/ship-go/zzverif/simrt"
@@ -104,10 +107,103 @@ func c09Run(args []string) (string, [][2]string) {
 	return obs, fails
 }
 
+// S part: the application stores the SHIP ID of a not yet known SKI while the hub meets that SKI for the first
+// time on another goroutine (mDNS report, incoming connection). The stored ID must reach the connection.
+func c09RaceBody(kind string) func() {
+	return func() {
+		simrt.ClearTraceHooks()
+		fakews.SetLatency(time.Millisecond)
+		a := hubx.NewNode("A", 0, 4711)
+		b := hubx.NewNode("B", 1, 4712)
+		const pinned = "some-other-device"
+		b.Hub.RegisterRemoteSKI(a.SKI)
+		// one connection attempt per side is enough to see whether the stored ID is honoured
+		fakews.SetDialFault(func(string, int) bool { return len(fakews.Links()) >= 1 })
+		a.Start()
+		simrt.RunFor(10 * time.Millisecond)
+		store := func() { a.Hub.ServiceForSKI(b.SKI).SetShipID(pinned) }
+		simrt.Mark()
+		switch kind {
+		case "store-vs-mdns":
+			// B becomes visible (first look-up of its SKI on A's mDNS report goroutine) while the application stores the ID
+			simrt.Go("app", store)
+			for _, e := range []string{"x"} {
+				_ = e
+				fakezeroconf.TheEther().Inject(&fakezeroconf.ServiceEntry{ServiceRecord: fakezeroconf.ServiceRecord{Instance: "svc-B"}, HostName: "b.local.", Port: 4712,
+					AddrIPv4: []net.IP{net.IPv4(127, 0, 0, 1)}, Text: []string{"txtvers=1", "id=shipid-B", "path=/ship/", "ski=" + b.SKI, "register=false"}}, false)
+			}
+			simrt.RunFor(20 * time.Millisecond)
+		case "store-vs-register":
+			simrt.Go("app", store)
+			simrt.Go("app2", func() { a.Hub.RegisterRemoteSKI(b.SKI) })
+			simrt.RunFor(20 * time.Millisecond)
+		case "store-vs-detail":
+			simrt.Go("app", store)
+			simrt.Go("app2", func() { a.Hub.PairingDetailForSki(b.SKI) })
+			simrt.RunFor(20 * time.Millisecond)
+		}
+		simrt.Unmark()
+		// now B really appears and connects; A accepts anybody, so only the stored SHIP ID stands in the way
+		a.Hub.SetAutoAccept(true)
+		b.Start()
+		simrt.RunFor(4 * time.Second)
+		stored := a.Hub.ServiceForSKI(b.SKI).ShipID()
+		if stored != pinned {
+			simrt.Fail("C09|hub|stored-id-lost", "the application stored SHIP ID %q for the SKI, the hub's record says %q (%s)", pinned, stored, kind)
+		}
+		if n := a.App.Count("setup", b.SKI); n > 0 {
+			simrt.Fail("C09|hub|mismatch-accepted", "hub A set up the remote device %d time(s) although the application had stored another SHIP ID for its SKI before it connected (%s)", n, kind)
+		}
+		if n := a.App.Count("shipid", b.SKI); n > 0 {
+			simrt.Fail("C09|hub|report-although-known", "hub A reported a SHIP ID for a SKI whose ID the application had stored (%s)", kind)
+		}
+		simrt.Outcome(fmt.Sprintf("stored=%s setups=%d links=%d", stored, a.App.Count("setup", b.SKI), len(fakews.Links())))
+	}
+}
+
+func c09Scenarios(r *hx.Run) []hx.Scenario {
+	var out []hx.Scenario
+	pb := 1
+	if r.Thorough() {
+		pb = 2
+	}
+	for _, k := range []string{"store-vs-mdns", "store-vs-register", "store-vs-detail"} {
+		out = append(out, hx.Scenario{Name: "c09:" + k, Body: c09RaceBody(k), Bounds: simrt.B(pb, 0, 0),
+			Cfg: simrt.Config{MaxSteps: 400000, BranchAfterMark: true, BranchOnly: []string{"app", "eportMdnsEntries"}}})
+	}
+	return out
+}
+
 func c09Main(r *hx.Run) {
 	if r.Worker {
+		if hx.WorkerMode() == "s" {
+			hx.SWorker(c09Scenarios(r))
+			return
+		}
 		hx.EnumWorker(c09Run)
 		return
+	}
+	if *debugScen >= 0 {
+		sc := c09Scenarios(r)[*debugScen]
+		x := simrt.Run(sc.Cfg, nil, sc.Body)
+		fmt.Println("points", len(x.Points), "steps", x.Steps, "trunc", x.Truncated, "outcome", x.Outcome, x.Failures, x.Panic, "now", x.Now)
+		for _, t := range x.Threads {
+			if !t.Done {
+				fmt.Printf("%+v\n", t)
+			}
+		}
+		return
+	}
+	if r.ReplayIn != "" {
+		var art struct {
+			Replay struct {
+				Scenario string `json:"scenario"`
+			} `json:"replay"`
+		}
+		hx.ReadJSON(r.ReplayIn, &art)
+		if art.Replay.Scenario != "" {
+			hx.MaybeReplay(r, c09Scenarios(r))
+		}
 	}
 	var tasks [][]string
 	for _, who := range []string{"A", "B", "both"} {
@@ -137,11 +233,23 @@ func c09Main(r *hx.Run) {
 			}
 		}
 	}
+	// S part
+	hx.SetWorkerMode("s")
+	scens := c09Scenarios(r)
+	ss := hx.ExploreAll(r, scens, false, 0)
+	for k := range ss.Found {
+		if !strings.HasPrefix(k, "C09|") && !strings.HasPrefix(k, "panic|") && !strings.HasPrefix(k, "engine|") {
+			delete(ss.Found, k)
+		}
+	}
+	viol = append(viol, hx.ConfirmViolations(ss, scens)...)
+	sc := ss.Coverage()
 	r.Finish(hx.Result{Level: "model_checking", Coverage: map[string]any{"states": len(tasks), "transitions": len(tasks), "traces_validated_against_impl": len(tasks),
 		"evaluations": len(tasks), "distinct_nontrivial": len(distinct),
+		"concurrent_store_scenarios": len(scens), "concurrent_store_executions": sc["executions"], "concurrent_store_completed_bound": sc["completed_deviation_bound"], "concurrent_store_outcomes": sc["outcomes"],
 		"rule":    "hub half: who dials {A, B, both} x SHIP ID stored at A for B {none, right, wrong} x stored at B for A x reconnect after a disconnect; one complete two-hub execution each (default schedule)",
-		"samples": samples, "exhaustive": true},
-		Assumptions: []string{"two complete ship-go nodes over the fake network; default schedule"}, Violations: viol})
+		"samples": samples, "exhaustive": sc["exhaustive"]},
+		Assumptions: []string{"two complete ship-go nodes over the fake network; default schedule for the enumeration; preemption-bounded exploration of the application storing a SHIP ID while the hub meets the SKI for the first time (mDNS report / incoming connection / registration)"}, Violations: viol})
 }
 
 func splitFail(f string) (string, string) {
